@@ -556,6 +556,24 @@ namespace
                         }
                         std::reverse(a.begin(), a.end());
                         if (a != m[l]) violate("C01/cxx-dlist-backward", "%s: operator--(int) / operator-> walk of list %d gives %s, reference %s", when, l, seq(a).c_str(), seq(m[l]).c_str());
+                        {
+                            // the VALUE of it++ / it-- is the old position (as in *it++ and the erase idiom l.pop(*it++))
+                            std::vector<int> pv;
+                            auto pi = L.begin();
+                            int g6 = 0;
+                            while (pi != L.end())
+                            {
+                                if (++g6 > ni + 2) violate("C01/cxx-dlist-cycle", "%s: *it++ walk of list %d does not end", when, l);
+                                pv.push_back((*pi++).id);
+                            }
+                            if (pv != m[l]) violate("C01/cxx-dlist-forward", "%s: a walk with *it++ over list %d gives %s, reference %s", when, l, seq(pv).c_str(), seq(m[l]).c_str());
+                            if (!m[l].empty())
+                            {
+                                auto pe = L.end();
+                                auto was = pe--;
+                                if (!(was == L.end()) || (*pe).id != m[l].back()) violate("C01/cxx-dlist-backward", "%s: it-- on end() of list %d does not return the old position / move to the last element", when, l);
+                            }
+                        }
                         if ((L.begin() == L.end()) != m[l].empty()) violate("C01/cxx-dlist-empty", "%s: begin() == end() is %d for a list of %zu", when, (int)(L.begin() == L.end()), m[l].size());
                         g3 = 0;
                         auto r = L.rbegin();
